@@ -403,6 +403,9 @@ func genAdjacency(r *runner) {
 	}
 	// unary towers: all sequences of up to 4 prefix operators and up to 2 postfix operators on each lvalue
 	pre := []string{"-", "+", "!", "++", "--", "$", "(", "- ", "+ "}
+	// suffix: an operator that binds tighter than the unary operators, after the tower ("- --x ^ 2" is -((--x)^2): the
+	// operand of the outer sign is then a power whose printed form begins with the inner operator)
+	suffix := ""
 	var towers func(prefix string, depth int, sample int)
 	towers = func(prefix string, depth int, sample int) {
 		for _, l := range lvalues {
@@ -411,13 +414,13 @@ func genAdjacency(r *runner) {
 					continue
 				}
 				opens := strings.Count(prefix, "(")
-				s := prefix + l + p + strings.Repeat(")", opens)
+				s := prefix + l + p + strings.Repeat(")", opens) + suffix
 				for _, ctx := range []int{0, 1} {
 					r.addSrc("adj-tower", inContext(ctx, s))
 				}
 				if opens > 0 {
 					// close the parenthesis before the postfix operator instead
-					s2 := prefix + l + strings.Repeat(")", opens) + p
+					s2 := prefix + l + strings.Repeat(")", opens) + p + suffix
 					r.addSrc("adj-tower", inContext(0, s2))
 				}
 			}
@@ -440,6 +443,13 @@ func genAdjacency(r *runner) {
 	towers("2 ^ ", 2, r.c.N(2, 1))
 	towers("y ~ ", 1, 1)
 	towers("y < ", 1, 1)
+	for _, suffix = range []string{" ^ 2", " ^ -y", " ^ --y ^ 2"} {
+		towers("", 2, 1)
+		towers("", 3, r.c.N(8, 1))
+		towers("y - ", 2, r.c.N(3, 1))
+		towers("2 ^ ", 2, r.c.N(3, 1))
+	}
+	suffix = ""
 }
 
 // ---- token soups -----------------------------------------------------------------------------------------------------
